@@ -24,10 +24,18 @@ using namespace BaseGraph;
 
 namespace {
 
+// "distinct files": the names of the threads' files differ in the stem (style 0), only in the extension (style 1: shard.0, shard.1, ...)
+// or only in their last character before a common extension (style 2)
+int g_nameStyle = 0;
 std::string scratchFile(int tid, const char *suffix) {
     const char *d = std::getenv("VERIF_SCRATCH");
     std::string dir = (d && *d) ? d : "/dev/shm";
-    return dir + "/conc_" + std::to_string((long)getpid()) + "_" + std::to_string(tid) + suffix;
+    std::string base = dir + "/conc_" + std::to_string((long)getpid());
+    if (g_nameStyle == 1)
+        return base + (suffix[1] == 't' ? "_text." : "_bin.") + std::to_string(tid);
+    if (g_nameStyle == 2)
+        return base + "_shard" + std::to_string(tid) + suffix;
+    return base + "_" + std::to_string(tid) + suffix;
 }
 std::string readAll(const std::string &p) {
     std::ifstream f(p, std::ios::binary);
@@ -185,6 +193,7 @@ void runInner(const Case &c, verif_result *out) {
     int threads = (int)std::min<long long>(8, std::max<long long>(2, c.geti("threads", 4)));
     int rounds = (int)std::min<long long>(4, std::max<long long>(1, c.geti("rounds", 2)));
     long long okey = c.geti("orderkey", 1);
+    g_nameStyle = (int)(okey % 3);
     G g(0);
     Model m;
     std::string observer, r;
